@@ -12,7 +12,7 @@ from kv import Case, xn, xb, xl, xlist, xopt, xbool
 
 ID = "C02"
 MODULE = "C02"
-IMPORTS = "Bytes RustInt RustStd Panics PanicsProofs Ims ImsProofs UrlCrawl UrlCrawlProofs"
+IMPORTS = "Bytes RustInt RustStd Panics PanicsProofs Ims ImsProofs UrlCrawl UrlCrawlProofs Templates TemplatesProofs"
 PROFILES = ("dev", "nochk")
 KERNEL_SAMPLE = 30
 THEOREMS = []     # pinned statements: at the end of the file
@@ -606,6 +606,22 @@ def generate(rng, tier):
     for b_ in P_BODY:
         cases.append(file_case(b"!> tmpl T\n" + b_, b"$[a]\nA\n", "file-template"))
         cases.append(file_case(b"!> hide\n" + b_, b"", "file-line", ext=1))
+    # ... and what the engine renders, compared with Model/Templates.v: template files and page bodies over the tokens of the syntax
+    T_SYMS = [b"$[", b"a", b"]", b"\n", b"\r\n", b"\\", b" ", b"b"]
+    def render_case(body, tfile, kind):
+        return Case("tmpl.render", xl(xb(body), xopt(None if tfile is None else xb(tfile))), None, {"kind": kind})
+    for w in words(b"", 4 if quick else 5, T_SYMS[:7]):
+        cases.append(render_case(b"$[a]|$[b]|\\$[a]", w, "render-template"))
+    for w in words(b"", 4 if quick else 5, T_SYMS):
+        cases.append(render_case(w, b"$[a]\nA\n$[b] B\r\n", "render-page"))
+    for b_ in P_BODY:
+        for t in T_FILES + [None]:
+            cases.append(render_case(b_, t, "render-fixed"))
+    for _ in range(400 if quick else 20000):
+        body = b"".join(rng.choice(T_SYMS + [b"tmpl-ignore", b"<p>", b"\xff", b"$[a]", b"$[b]", b"x" * 45]) for _ in range(rng.randrange(0, 12)))
+        tf = b"".join(rng.choice(T_SYMS + [b"$[a]", b"$[b]", b"\xff", b"text"]) for _ in range(rng.randrange(0, 12)))
+        cases.append(render_case(body, tf if rng.random() < 0.9 else None, "render-random"))
+    cases.append(render_case(b"<p>$[a]</p>", b"$[a]\n", "corpus"))
     # url_crawl (anchor url-crawl/src/lib.rs): the link iterators the push extension and the reverse proxy run on HTML
     U_SYMS = [b"<", b"img", b" src=", b" href=", b"\"", b"'", b"`", b"/a", b">", b"link", b" rel=\"stylesheet\"", b"\xc3\xa9", b"//", b"\\",
               b"background-image: url(", b"/abc", b")"]
@@ -657,7 +673,7 @@ def has_panic(c, i):
     return i.startswith(PANIC)
 
 
-LIVE = ("explore.conn", "explore.server", "explore.file", "explore.date", "ims.decide", "stream.window", "c02.path")
+LIVE = ("explore.conn", "explore.server", "explore.file", "explore.date", "ims.decide", "stream.window", "c02.path", "tmpl.render")
 TROUBLE = {}          # id -> (component, kind, message) of the live cases the harness could not execute (no verdict)
 
 
@@ -914,6 +930,10 @@ THEOREMS = [
      "forall (filter : bytes -> nat -> bool) (interdomain : bool) (data : bytes), link_iter false filter interdomain data <> Panic"),
     ("link_iter_v0_refuted",
      "link_iter true filter_resource false unclosed = Panic /\\ link_iter true filter_absolute false unclosed = Panic /\\ link_iter false filter_resource false unclosed = Ok [IPath (B \"/abc\") (B \"<img src=\" ++ [34]) 1]"),
+    ("template_engine_never_panics",
+     "forall (tfile : option bytes) (body : bytes), render false tfile body <> Panic"),
+    ("template_engine_v0_refuted",
+     "extract_templates true empty_last = Panic /\\ render true (Some empty_last) (B \"<p>$[a]</p>\") = Panic /\\ render false (Some empty_last) (B \"<p>$[a]</p>\") = Ok (B \"<p></p>\") /\\ render true (Some empty_last) (B \"<p>no placeholder $[</p>\") = Ok (B \"<p>no placeholder \")"),
     ("present_line_never_panics",
      "forall data : bytes, exists r, PresentLine.present_parse data = Ok r /\\ match r with | Some p => (PresentLine.p_data_start p <= length data)%nat /\\ PresentLine.p_body p = skipn (PresentLine.p_data_start p) data | None => True end"),
     ("nonce_rewriter_never_panics",
